@@ -29,6 +29,8 @@ type winKnobs struct {
 	MaxClockSkewMs  int64 `json:"MaxClockSkew_ms"`
 	AudienceHook    bool  `json:"custom_audience_validator,omitempty"` // the application installs ValidateAudienceRestriction (accepts this SP's audience)
 	AllowIDP        bool  `json:"allow_idp_initiated,omitempty"`       // ServiceProvider.AllowIDPInitiated: says nothing about any validity window
+	// ForceAuthn: ServiceProvider.ForceAuthn is set (what the SP asks for in its requests): says nothing about any validity window
+	ForceAuthn *bool `json:"force_authn,omitempty"`
 }
 
 type winStep struct {
@@ -101,6 +103,7 @@ func genLattice(g *Rng, idx uint64) *Plan {
 		MaxClockSkewMs:  Pick(g, int64(0), 1000, 180_000, 1_020_000),
 		AudienceHook:    g.Bool(0.15),
 		AllowIDP:        g.Bool(0.2),
+		ForceAuthn:      Pick[*bool](g, nil, nil, nil, bp(true), bp(true), bp(false)),
 	}
 	st := winStep{Kind: "deliver", Entry: Pick(g, "xml", "xml", "post"), Lattice: int(idx) + 1}
 	st.SkewMs = Pick(g, int64(0), 1000, -1000, 250_000, -250_000)
@@ -137,6 +140,10 @@ func genLattice(g *Rng, idx uint64) *Plan {
 	if g.Bool(0.3) {
 		// the IdP's own session ends hours later (SessionNotOnOrAfter): that is about the IdP's session, not about this assertion's windows
 		spec.Assertions[0].SessionNOA = i64(x + Pick(g, int64(8*3_600_000), 86_400_000, 60_000))
+	}
+	if g.Bool(0.3) {
+		// the IdP answers from a session it opened minutes, hours or weeks ago (AuthnInstant): when the user logged in at the IdP is none of the windows
+		spec.Assertions[0].AuthnMs = i64(-Pick(g, int64(600_000), 8*3_600_000, 30*86_400_000))
 	}
 	st.Spec = spec
 	return &Plan{Knobs: mustJSON(k), Steps: []json.RawMessage{mustJSON(st)}}
@@ -180,6 +187,7 @@ func genWindows(g *Rng, tier string) *Plan {
 		MaxClockSkewMs:  Pick(g, int64(0), 1000, 180_000, 1_020_000, 1_020_000, -1000),
 		AudienceHook:    g.Bool(0.15),
 		AllowIDP:        g.Bool(0.2),
+		ForceAuthn:      Pick[*bool](g, nil, nil, nil, bp(true), bp(true), bp(false)),
 	}
 	p := &Plan{Knobs: mustJSON(k)}
 	n := 1 + g.PickW(6, 3, 1)
@@ -279,6 +287,11 @@ func genWindows(g *Rng, tier string) *Plan {
 				spec.Assertions[ai].SessionNOA = i64(x + Pick(g, int64(8*3_600_000), 86_400_000, 60_000))
 			}
 		}
+		if g.Bool(0.3) {
+			for ai := range spec.Assertions {
+				spec.Assertions[ai].AuthnMs = i64(-Pick(g, int64(600_000), 8*3_600_000, 30*86_400_000))
+			}
+		}
 		st.Spec = spec
 		p.Steps = append(p.Steps, mustJSON(st))
 	}
@@ -339,6 +352,10 @@ func execWindows(t *testing.T, p *Plan) *Result {
 		}
 	}
 	spv.AllowIDPInitiated = k.AllowIDP
+	spv.ForceAuthn = k.ForceAuthn
+	if k.ForceAuthn != nil {
+		res.probe(fmt.Sprintf("sp-force-authn:%v", *k.ForceAuthn))
+	}
 	tr := &c02Transport{}
 	spv.HTTPClient = &http.Client{Transport: tr}
 	start := time.Now()
